@@ -28,7 +28,7 @@ def run(ch, build):
     rng = ch.rng
     scns = []
     pw = b"correct horse"
-    kgv = bytes(range(20))
+    kgv = bytes(range(1, 8)) + b"\x00" + bytes(range(9, 21))   # a binary key with a zero byte inside
     combos = [(a, [1, 2, 4][(a + k) % 3]) for a in (1, 2, 3) for k in range(1 if ch.quick() else 3)]
     for (a, i) in combos:
         su = (a, i, 1)
@@ -40,14 +40,22 @@ def run(ch, build):
             variants = [("same", None, None, True), ("wrongpw", b"incorrect horse", None, False),
                         ("zeropadded", pw + b"\x00\x00", None, True), ("pad20", pw + b"\x00" * (20 - len(pw)), None, True),
                         ("prefix", pw[:-1], None, False), ("emptypw", b"", None, False)]
+            # a 20-byte password of which the BMC only holds a prefix (16, 17, 19 bytes), or the caller only a prefix
+            variants += [("bmcprefix16", "LONG16", None, False), ("bmcprefix17", "LONG17", None, False), ("bmcprefix19", "LONG19", None, False)]
             if kg:
-                variants += [("wrongkg", None, bytes(range(1, 21)), False)]
+                variants += [("wrongkg", None, bytes(range(1, 21)), False), ("kgprefix", None, kgv[:7] + bytes(13), False)]
             else:
                 variants += [("bmchaskg", None, kgv, False)]
+            longpw = b"a-twenty-byte-secret"
             for name, opw, okg, expect_ok in variants:
+                use_pw = pw
+                if isinstance(opw, str):            # the caller's password is the long one, the BMC's its first n bytes
+                    use_pw, opw = longpw, longpw[:int(opw[4:])]
                 s = base(11, **({"override_password": opw.hex()} if opw is not None else {}),
                          **({"override_kg": okg.hex()} if okg is not None else {}))
-                s["steps"] = [hs.open_step(password=pw, kg=kg, suites=[su])]
+                if use_pw is not pw:
+                    s["bmc"]["users"] = [{"name": "admin", "password": use_pw.hex(), "maxpriv": 4}]
+                s["steps"] = [hs.open_step(password=use_pw, kg=kg, suites=[su])]
                 s["variant"] = name; s["expect_ok"] = expect_ok; s["suite"] = su
                 scns.append(s)
             # learn the genuine reply lengths
